@@ -77,3 +77,81 @@ func TestProbeChild(t *testing.T) {
 		fmt.Println()
 	}
 }
+
+func lit(v any) *Lit {
+	switch x := v.(type) {
+	case nil:
+		return &Lit{Null: true}
+	case string:
+		return &Lit{S: &x}
+	case int:
+		i := int64(x)
+		return &Lit{I: &i}
+	case float64:
+		return &Lit{F: &x}
+	case bool:
+		return &Lit{B: &x}
+	}
+	panic("lit")
+}
+
+func leaf(field, op string, v any) Filter { return Filter{Kind: "leaf", Field: field, Op: op, Val: lit(v)} }
+
+// TestMakeKnown writes testdata/known/*.json: one minimal case per listed finding (development aid).
+func TestMakeKnown(t *testing.T) {
+	if os.Getenv("MAKE_KNOWN") == "" {
+		t.Skip()
+	}
+	i64 := func(x int64) *int64 { return &x }
+	g := leaf("b", "_eq", true)
+	evals := map[string]Case{
+		"later-key-ignored": {Docs: []Doc{{S: ptr("a"), I: i64(1)}, {S: ptr("b"), I: i64(1)}, {S: ptr("c"), I: i64(1)}}, Q: Query{Sub: Sub{Order: []OrderKey{{Field: "i"}, {Field: "s", Desc: true}}}}, G: g},
+		"minmax-null":       {Docs: []Doc{{I: i64(1)}, {I: i64(5)}, {}, {I: i64(3)}, {I: i64(2)}, {}}, Q: Query{Aggs: []Agg{{Fn: "_max", Field: "i"}, {Fn: "_min", Field: "i"}}}, G: g},
+		"avg-ne":            {Docs: []Doc{{I: i64(1)}, {I: i64(5)}, {I: i64(3)}}, Q: Query{Aggs: []Agg{{Fn: "_avg", Field: "i", Sub: Sub{Filter: ptr(leaf("i", "_ne", 1))}}}}, G: g},
+		"like-infix":        {Docs: []Doc{{S: ptr("a")}, {S: ptr("aa")}, {S: ptr("aba")}, {S: ptr("b")}}, Q: Query{Sub: Sub{Filter: ptr(leaf("s", "_like", "a%a"))}}, G: g},
+		"sum-big":           {Big: true, Docs: []Doc{{I: i64(1<<53 + 1)}, {I: i64(1)}}, Q: Query{Aggs: []Agg{{Fn: "_sum", Field: "i"}}}, G: g},
+		"group-limit":       {Docs: []Doc{{S: ptr("a"), I: i64(1)}, {S: ptr("a"), I: i64(2)}, {S: ptr("a"), I: i64(3)}}, Q: Query{Grouped: true, GroupBy: []string{"s"}, Sub: Sub{Order: []OrderKey{{Field: "s"}}}, Member: &Sub{Limit: 1}}, G: g},
+		"agg-not":           {Docs: []Doc{{I: i64(1)}, {I: i64(5)}}, Q: Query{Aggs: []Agg{{Fn: "_count", Sub: Sub{Filter: &Filter{Kind: "not", Kids: []Filter{leaf("i", "_eq", 1)}}}}}}, G: g},
+		"group-offset":      {Docs: []Doc{{S: ptr("a"), I: i64(1)}, {S: ptr("a"), I: i64(2)}, {S: ptr("a"), I: i64(3)}}, Q: Query{Grouped: true, GroupBy: []string{"s"}, Member: &Sub{Offset: 1}, Aggs: []Agg{{Fn: "_count", Sub: Sub{Offset: 1}}}}, G: g},
+	}
+	fx := sharedFixture()
+	reqs := map[string]string{
+		"panic-order-version":            `query { Users(order: {i: ASC}) { k _version { cid } } }`,
+		"panic-commits-group-subselect":  `query { commits(groupBy: [height]) { height _group { links { cid } } } }`,
+		"panic-group-relation-aggregate": `query { Users(groupBy: [s]) { s _group { _count(books: {}) } } }`,
+		"panic-order-json":               `query { Users(order: {j: ASC}) { k j } }`,
+		"panic-json-path-filter":         `query { Users(filter: {j: {a: {b: {c: {d: {_eq: 1}}}}}}) { k } }`,
+		"panic-relation-filter-null":     `query { Book(filter: {author: null}) { title } }`,
+		"panic-timetravel-version":       fmt.Sprintf(`query { Users(cid: %q) { k _version { cid } } }`, fx.cids[0]),
+		"panic-unclosed-iterator":        `query { Users(groupBy: [i], filter: {s: {_in: ["a", "b"]}}, limit: 1) { i _count(_group: {}) } }`,
+		"panic-parser-variable":          `query ( $f : UsersFilterArg , $l : ) { Users ( filter : $f , limit : $l ) { k } }`,
+		"hang-timetravel-delete":         fmt.Sprintf(`query { Users(cid: %q) { _docID } }`, fx.delCids[0]),
+		"crash-fragment-cycle":           `query { Users { ...F } } fragment F on Users { k ...F }`,
+		"commits-recursion":              fmt.Sprintf(`query { commits(cid: %q, fieldName: "nope") { cid } }`, fx.cids[0]),
+		"panic-alias-operator-name":      os.Getenv("EXTRA_REQ"),
+	}
+	_ = os.MkdirAll("testdata/known", 0o755)
+	write := func(name string, c AnyCase) {
+		f := runAny(c)
+		sig, msg := "<none>", ""
+		if f != nil {
+			sig, msg = f.Sig, f.Msg
+		}
+		fmt.Printf("%-34s %s\n      %.300s\n", name, sig, msg)
+		if f == nil {
+			return
+		}
+		out, _ := json.MarshalIndent(map[string]any{"property": "C08", "signature": sig, "message": msg[:min(len(msg), 600)], "case": c}, "", " ")
+		_ = os.WriteFile("testdata/known/"+name+".json", out, 0o644)
+	}
+	for name, c := range evals {
+		c := c
+		write(name, AnyCase{Eval: &c})
+	}
+	for name, q := range reqs {
+		if q == "" {
+			continue
+		}
+		write(name, AnyCase{Req: &ReqCase{Tpl: "raw", Raw: q, Observe: true}})
+	}
+}
